@@ -23,6 +23,7 @@ import (
 	"github.com/google/inverting-proxy/zz_verif/vh"
 	"github.com/google/inverting-proxy/zz_verif/vnet"
 	"github.com/google/inverting-proxy/zz_verif/vs"
+	"github.com/google/inverting-proxy/zz_verif/vtime"
 	"github.com/google/inverting-proxy/zz_verif/vws"
 	"github.com/google/inverting-proxy/zz_verif/vx"
 )
@@ -101,6 +102,9 @@ func base(r *vs.Result, x *vx.Exec) {
 	if r.Exited {
 		x.Violations = append(x.Violations, fmt.Sprintf("EXIT: the frontend exited (code %d): %v", r.ExitCode, venv.Hooks.FatalLog))
 	}
+	for _, rc := range r.Races {
+		x.Violations = append(x.Violations, fmt.Sprintf("RACE: unsynchronised concurrent use of %s by %s and %s (gorilla/websocket allows one concurrent writer and one concurrent reader per connection; it panics on a second writer)", rc.Object, rc.A, rc.B))
+	}
 }
 
 // ---------------- C15 ----------------
@@ -108,6 +112,11 @@ func base(r *vs.Result, x *vx.Exec) {
 type plan struct {
 	up, down []int // write sizes client->server, server->client
 	rbuf     int   // reader buffer size at both ends
+	// half: the client half-closes (CloseWrite) after its last write and the server only
+	// answers once it has read everything the client sent (request/response over one connection)
+	half bool
+	// pause: virtual time the client lets pass between its writes (idle connection)
+	pause time.Duration
 }
 
 func c15Scenario(name string, plans []plan, pb int) vx.Scenario {
@@ -119,7 +128,7 @@ func c15Scenario(name string, plans []plan, pb int) vx.Scenario {
 			big += n / p.rbuf
 		}
 	}
-	return vx.Scenario{Name: name, PB: pb + 1, Delay: true, Single: big > 300, MaxSteps: 400000, MaxTime: time.Minute,
+	return vx.Scenario{Name: name, PB: pb + 1, Delay: true, Single: big > 300, MaxSteps: 400000, MaxTime: 20 * time.Minute,
 		Setup: func(s *vs.Sched) func(*vs.Result) vx.Exec {
 			w := setup(s, true)
 			n := len(plans)
@@ -144,6 +153,13 @@ func c15Scenario(name string, plans []plan, pb int) vx.Scenario {
 						i := int(hdr[0])
 						p := plans[i]
 						vs.Go(func() {
+							if p.half {
+								want := 0
+								for _, n := range p.up {
+									want += n
+								}
+								vs.Wait("server: whole request read", nil, func() bool { return len(gotUp[i]) >= want })
+							}
 							for k, sz := range p.down {
 								d := pattern(i, 1, sz+k)[:sz]
 								sentDown[i] = append(sentDown[i], d...)
@@ -162,9 +178,15 @@ func c15Scenario(name string, plans []plan, pb int) vx.Scenario {
 					c.Write([]byte{byte(i)})
 					vs.Go(func() { readAll(c, p.rbuf, &gotDown[i], &eofDown[i]) })
 					for k, sz := range p.up {
+						if k > 0 && p.pause > 0 {
+							vtime.Sleep(p.pause)
+						}
 						d := pattern(i, 0, sz+k)[:sz]
 						sentUp[i] = append(sentUp[i], d...)
 						c.Write(d)
+					}
+					if p.half {
+						c.(*vnet.Conn).CloseWrite()
 					}
 				})
 			}
@@ -291,6 +313,20 @@ func c15Scenarios(th bool) []vx.Scenario {
 			out = append(out, c15Scenario(fmt.Sprintf("c15/two/[%d]x[%d]", a, b), []plan{{up: []int{a, 3}, down: []int{b}, rbuf: 4096}, {up: []int{b}, down: []int{a, 5}, rbuf: 7}}, pb))
 		}
 	}
+	// request/response over one connection: the client half-closes after its request
+	for _, up := range []int{1, 1025, 70000} {
+		for _, down := range []int{1, 1025, 70000} {
+			pb := 0
+			if up+down < 3000 {
+				pb = 1
+			}
+			out = append(out, c15Scenario(fmt.Sprintf("c15/half-close/up[%d]/down[%d 3]", up, down), []plan{{up: []int{up}, down: []int{down, 3}, rbuf: 4096, half: true}}, pb))
+		}
+	}
+	// connections that stay idle for a while between writes (timers of the bridge, if any, fire)
+	for _, d := range []time.Duration{11 * time.Second, 31 * time.Second, 5 * time.Minute} {
+		out = append(out, c15Scenario(fmt.Sprintf("c15/idle-%v/up[10 10 10]/down[10]", d), []plan{{up: []int{10, 10, 10}, down: []int{10}, rbuf: 4096, pause: d}}, 0))
+	}
 	// partially consumed messages on the exported connection type
 	for _, rb := range []int{1, 3, 7, 100} {
 		for _, wb := range []int{0, 1, 5, 200} {
@@ -313,6 +349,9 @@ func c16Scenario(hist []string, serverUp bool, pb int) vx.Scenario {
 			var gotUp, gotDown, sentUp, sentDown []byte
 			var eofUp, eofDown string
 			clientClosed, serverClosed, clientHalf := false, false, false
+			// writes made toward an end after it closed: the unchanged bridge only notices a close
+			// when a later write toward the closed end fails (the second one does)
+			towardClient, towardServer := 0, 0
 			if serverUp {
 				s.DaemonThread("server", func() {
 					c, err := w.serverL.Accept()
@@ -337,6 +376,9 @@ func c16Scenario(hist []string, serverUp bool, pb int) vx.Scenario {
 						if _, err := c.Write(d); err == nil {
 							sentUp = append(sentUp, d...)
 						}
+						if serverClosed {
+							towardServer++
+						}
 					case 's':
 						var n int
 						fmt.Sscanf(op[2:], "%d", &n)
@@ -344,6 +386,9 @@ func c16Scenario(hist []string, serverUp bool, pb int) vx.Scenario {
 							d := pattern(0, 1, n)
 							if _, err := srvConn.Write(d); err == nil {
 								sentDown = append(sentDown, d...)
+							}
+							if clientClosed {
+								towardClient++
 							}
 						}
 					case 'H':
@@ -373,14 +418,23 @@ func c16Scenario(hist []string, serverUp bool, pb int) vx.Scenario {
 				if !clientClosed && !bytes.Equal(gotDown, sentDown) {
 					x.Violations = append(x.Violations, fmt.Sprintf("DATALOSS: client read %d of the %d bytes the server wrote before closing (history %s)", len(gotDown), len(sentDown), h))
 				}
+				// "idle": fewer than two writes were made toward the closed end afterwards (the recorded
+				// finding: the bridge never propagates a close by itself); "after-traffic": the bridge had
+				// failing writes to learn from and still did not propagate
+				kind := func(n int) string {
+					if n >= 2 {
+						return fmt.Sprintf("after-traffic, %d writes toward the closed end", n)
+					}
+					return "idle"
+				}
 				if (clientClosed || clientHalf) && serverUp && !serverClosed && srvConn != nil && eofUp == "" {
-					x.Violations = append(x.Violations, fmt.Sprintf("NOEOF-SERVER: the client closed but the server never observed end-of-stream (history %s); parked: %s", h, parked(r)))
+					x.Violations = append(x.Violations, fmt.Sprintf("NOEOF-SERVER(%s): the client closed but the server never observed end-of-stream (history %s); parked: %s", kind(towardClient), h, parked(r)))
 				}
 				if serverClosed && !clientClosed && eofDown == "" {
-					x.Violations = append(x.Violations, fmt.Sprintf("NOEOF-CLIENT: the server closed but the client never observed end-of-stream (history %s); parked: %s", h, parked(r)))
+					x.Violations = append(x.Violations, fmt.Sprintf("NOEOF-CLIENT(%s): the server closed but the client never observed end-of-stream (history %s); parked: %s", kind(towardServer), h, parked(r)))
 				}
 				if !serverUp && eofDown == "" && !clientClosed {
-					x.Violations = append(x.Violations, fmt.Sprintf("NOEOF-CLIENT: the TCP server is unreachable but the client connection was not closed (history %s)", h))
+					x.Violations = append(x.Violations, fmt.Sprintf("NOEOF-CLIENT(idle): the TCP server is unreachable but the client connection was not closed (history %s)", h))
 				}
 				bridgeParked := 0
 				for _, b := range r.Blocked {
@@ -389,9 +443,144 @@ func c16Scenario(hist []string, serverUp bool, pb int) vx.Scenario {
 					}
 				}
 				if (clientClosed && (serverClosed || !serverUp)) && (openBridgeConns(w) > 0 || bridgeThreadsParked(r) > 0) {
-					x.Violations = append(x.Violations, fmt.Sprintf("OUTLIVES: both endpoints are gone but the bridge still holds %d connections and %d of its goroutines are parked (history %s): %s", openBridgeConns(w), bridgeThreadsParked(r), h, parked(r)))
+					x.Violations = append(x.Violations, fmt.Sprintf("OUTLIVES(%s): both endpoints are gone but the bridge still holds %d connections and %d of its goroutines are parked (history %s): %s", kind(towardClient+towardServer), openBridgeConns(w), bridgeThreadsParked(r), h, parked(r)))
 				}
 				x.Obs = fmt.Sprintf("up %d/%d %s down %d/%d %s open=%d parked=%d", len(gotUp), len(sentUp), eofUp, len(gotDown), len(sentDown), eofDown, openBridgeConns(w), bridgeThreadsParked(r))
+				return x
+			}
+		}}
+}
+
+// c16Pair: two bridged connections at the same time. Connection A is closed by its client and the
+// server keeps writing to it (so that the bridge learns of the close from failing writes), while
+// connection B stays open and idle; A's close must reach the server although B is still there, B must
+// keep working, and each client only ever reads its own connection's bytes.
+func c16Pair(concurrentDial bool, closer string, pb int) vx.Scenario {
+	name := fmt.Sprintf("c16/pair/concurrent-dial=%v/%s-closes-A", concurrentDial, closer)
+	return vx.Scenario{Name: name, PB: pb + 1, Delay: true, MaxSteps: 100000, MaxTime: time.Minute,
+		Setup: func(s *vs.Sched) func(*vs.Result) vx.Exec {
+			w := setup(s, true)
+			srv := make([]net.Conn, 2)
+			gotUp := make([][]byte, 2)
+			gotDown := make([][]byte, 2)
+			eofUp := make([]string, 2)
+			eofDown := make([]string, 2)
+			sentDown := make([][]byte, 2)
+			sentUp := make([][]byte, 2)
+			cl := make([]net.Conn, 2)
+			s.DaemonThread("server-accept", func() {
+				for {
+					c, err := w.serverL.Accept()
+					if err != nil {
+						return
+					}
+					vs.Go(func() {
+						hdr := make([]byte, 1)
+						if _, err := io.ReadFull(c, hdr); err != nil {
+							return
+						}
+						i := int(hdr[0])
+						vs.Touch(unsafe.Pointer(w))
+						srv[i] = c
+						readAll(c, 4096, &gotUp[i], &eofUp[i])
+					})
+				}
+			})
+			connect := func(i int) {
+				c := w.dialFrontend()
+				c.Write([]byte{byte(i)})
+				vs.Touch(unsafe.Pointer(w))
+				cl[i] = c
+				vs.Go(func() { readAll(c, 4096, &gotDown[i], &eofDown[i]) })
+			}
+			if concurrentDial {
+				s.Thread("client1", func() { connect(1) })
+			}
+			s.Thread("driver", func() {
+				connect(0)
+				if !concurrentDial {
+					connect(1)
+				}
+				vs.Wait("both connections bridged", unsafe.Pointer(w), func() bool { return srv[0] != nil && srv[1] != nil && cl[1] != nil })
+				vs.Quiesce()
+				sw := func(i, n int) {
+					d := pattern(i, 1, n)
+					if _, err := srv[i].Write(d); err == nil {
+						sentDown[i] = append(sentDown[i], d...)
+					}
+					vs.Quiesce()
+				}
+				cw := func(i, n int) {
+					d := pattern(i, 0, n)
+					if _, err := cl[i].Write(d); err == nil {
+						sentUp[i] = append(sentUp[i], d...)
+					}
+					vs.Quiesce()
+				}
+				// both carry data first
+				sw(0, 10)
+				sw(1, 20)
+				cw(0, 5)
+				cw(1, 6)
+				switch closer {
+				case "client":
+					cl[0].Close()
+					vs.Quiesce()
+					for k := 0; k < 3; k++ {
+						d := pattern(0, 1, 10)
+						srv[0].Write(d)
+						vs.Quiesce()
+					}
+				case "server":
+					srv[0].Close()
+					vs.Quiesce()
+					for k := 0; k < 3; k++ {
+						cl[0].Write(pattern(0, 0, 10))
+						vs.Quiesce()
+					}
+				}
+				// B still works
+				sw(1, 7)
+				cw(1, 8)
+			})
+			return func(r *vs.Result) vx.Exec {
+				var x vx.Exec
+				base(r, &x)
+				if len(x.Violations) > 0 {
+					return x
+				}
+				if cl[1] == nil || srv[0] == nil || srv[1] == nil {
+					x.Violations = append(x.Violations, fmt.Sprintf("NOTBRIDGED: the two connections were not both bridged to the server; parked: %s", parked(r)))
+					return x
+				}
+				for i := 0; i < 2; i++ {
+					gd, gu := gotDown[i], gotUp[i]
+					if i == 0 && closer == "client" {
+						// A's client stopped reading when it closed
+						if len(gd) > len(sentDown[0]) || !bytes.Equal(gd, sentDown[0][:len(gd)]) {
+							x.Violations = append(x.Violations, fmt.Sprintf("CROSSED: client A read bytes the server never wrote to connection A (%d bytes)", len(gd)))
+						}
+					} else if !bytes.Equal(gd, sentDown[i]) {
+						x.Violations = append(x.Violations, fmt.Sprintf("DATALOSS: client %c read %d of the %d bytes the server wrote to its connection (first difference at %d)", 'A'+i, len(gd), len(sentDown[i]), firstDiff(gd, sentDown[i])))
+					}
+					if i == 0 && closer == "server" {
+						if len(gu) > len(sentUp[0]) || !bytes.Equal(gu, sentUp[0][:len(gu)]) {
+							x.Violations = append(x.Violations, "CROSSED: the server read bytes on connection A that client A never wrote")
+						}
+					} else if !bytes.Equal(gu, sentUp[i]) {
+						x.Violations = append(x.Violations, fmt.Sprintf("DATALOSS: the server read %d of the %d bytes client %c wrote (first difference at %d)", len(gu), len(sentUp[i]), 'A'+i, firstDiff(gu, sentUp[i])))
+					}
+				}
+				if closer == "client" && eofUp[0] == "" {
+					x.Violations = append(x.Violations, fmt.Sprintf("NOEOF-SERVER(after-traffic, 3 writes toward the closed end): client A closed and the server wrote to it three more times, but the server never observed the end of connection A while connection B is open; parked: %s", parked(r)))
+				}
+				if closer == "server" && eofDown[0] == "" {
+					x.Violations = append(x.Violations, fmt.Sprintf("NOEOF-CLIENT(after-traffic, 3 writes toward the closed end): the server closed connection A and client A wrote three more times, but client A never observed end-of-stream while connection B is open; parked: %s", parked(r)))
+				}
+				if eofUp[1] != "" || eofDown[1] != "" {
+					x.Violations = append(x.Violations, fmt.Sprintf("COLLATERAL: connection B was ended (%q/%q) by the close of connection A", eofUp[1], eofDown[1]))
+				}
+				x.Obs = fmt.Sprintf("A up %d down %d eof %q/%q; B up %d down %d eof %q/%q", len(gotUp[0]), len(gotDown[0]), eofUp[0], eofDown[0], len(gotUp[1]), len(gotDown[1]), eofUp[1], eofDown[1])
 				return x
 			}
 		}}
@@ -490,6 +679,16 @@ func c16Scenarios(th bool) []vx.Scenario {
 		}
 	}
 	rec(nil)
+	// two connections at once
+	for _, cd := range []bool{false, true} {
+		for _, cl := range []string{"client", "server"} {
+			pb := 0
+			if cd {
+				pb = 1
+			}
+			out = append(out, c16Pair(cd, cl, pb))
+		}
+	}
 	// TCP server unreachable
 	out = append(out, c16Scenario([]string{"c:10"}, false, 1), c16Scenario([]string{"c:10", "C"}, false, 1), c16Scenario([]string{}, false, 1))
 	return out
